@@ -105,8 +105,8 @@ def run_job(job, findings_open):
     def job_call(env):
         return func(env, **job.params)
 
-    def concretise(c, extra):
-        status, vals = core.full_model(c, extra)
+    def concretise(c, extra, known=None, timeout_ms=None):
+        status, vals = core.full_model(c, extra, known=known, timeout_ms=timeout_ms)
         if vals is None:
             return status, None
         return status, {k: vals.get(k, 0.0) for k in c.inputs}
@@ -117,7 +117,7 @@ def run_job(job, findings_open):
         res["notes"] = list(dict.fromkeys(res["notes"] + [str(n) for n in c.notes]))[:50]
         # reachability witness + encoding validation on the first paths
         if res["reach"]["witness_checked"] < job.opts.get("witness_paths", 2):
-            _, vals = concretise(c, [])
+            _, vals = concretise(c, [], timeout_ms=job.opts.get("witness_timeout_ms", 10000))
             if vals is not None:
                 res["reach"]["paths_with_model"] += 1
                 try:
@@ -157,7 +157,7 @@ def run_job(job, findings_open):
             extra = []
             for lem in ob.lemmas:
                 lz = as_z3_bool(lem)
-                lv, _, _, ls = core.decide(c, lz)
+                lv, _, _, ls = core.decide(c, lz, extra=list(extra))
                 r["seconds"] += ls
                 r["lemmas"] = r.get("lemmas", 0) + 1
                 if lv == "unsat":
@@ -177,7 +177,7 @@ def run_job(job, findings_open):
                                            negated_claim=txt if len(txt) < 600 else txt[:600] + " ...",
                                            path_condition_size=len(c.pc), definitions=len(c.defs)))
             if verdict == "sat":
-                st = handle_cex(c, ob, z3.Not(claim), pidx, finding=None)
+                st = handle_cex(c, ob, z3.Not(claim), pidx, finding=None, known=model)
                 if st != "sat":
                     # the slice was satisfiable but the whole path condition is not (or is undecided)
                     r["sat"] -= 1
@@ -190,10 +190,10 @@ def run_job(job, findings_open):
                 if not any(x["finding"] == ob.finding and x["reproduced"] for x in res["witnesses"]):
                     v2, m2, l2, s2 = core.decide(c, z3.Not(w))
                     if v2 == "sat":
-                        handle_cex(c, ob, w, pidx, finding=ob.finding)
+                        handle_cex(c, ob, w, pidx, finding=ob.finding, known=m2)
 
-    def handle_cex(c, ob, neg, pidx, finding):
-        status, vals = concretise(c, [neg])
+    def handle_cex(c, ob, neg, pidx, finding, known=None):
+        status, vals = concretise(c, [neg], known=known)
         if status != "sat":
             return status
         entry = dict(job=job.key(), obligation=ob.name, path=pidx, inputs=vals, reproduced=False, detail=ob.note, note=ob.note,
